@@ -41,7 +41,7 @@ def make_tables(rng, link_type, uid="unique_id", with_arr=False, n=None):
         rows = []
         for i in range(m):
             r = {uid: i + 1, "first_name": rng.choice(FIRST), "surname": rng.choice(SUR),
-                 "city": rng.choice(CITY), "age": str(rng.choice([30, 31, 40]))}
+                 "city": rng.choice(CITY), "age": str(rng.choice([30, 31, 40])), "cluster": "k%d" % rng.choice([1, 2, 3, 4])}
             if with_arr:
                 r["arr"] = rng.choice([["u"], ["u", "v"], ["v", "w"], ["w"]])
             rows.append(r)
@@ -50,7 +50,7 @@ def make_tables(rng, link_type, uid="unique_id", with_arr=False, n=None):
         rows[0]["surname"], rows[1]["surname"] = "smith", "smyth"
         rows[2]["first_name"], rows[2]["surname"] = None, "jones"
         d = pd.DataFrame(rows)
-        for c in ("first_name", "surname", "city", "age"):
+        for c in ("first_name", "surname", "city", "age", "cluster"):
             d[c] = d[c].astype("string")
         tabs.append(d)
     return tabs
@@ -197,6 +197,66 @@ def description_witness(kind):
     return ok, got
 
 
+TRAINED_HISTORIES = [[("u", None)], [("mlabel", None)], [("em", "city")], [("u", None), ("em", "city")],
+                     [("mlabel", None), ("u", None), ("em", "age")]]
+
+
+def trained_witness(field, value, history, fixed=True):
+    """A model whose levels carry explicit m/u values (the middle level with fix_m/fix_u set when
+    `fixed`), trained with `history`, then saved and reloaded: the value the in-memory model scores
+    with must be the one in the JSON and in the reloaded model, and predictions must agree."""
+    import random
+    lvl = {"sql_condition": "first_name_l = first_name_r", "label_for_charts": "exact first name",
+           "m_probability": 0.8125, "u_probability": 0.0625}
+    if fixed:
+        lvl["fix_m_probability"] = True
+        lvl["fix_u_probability"] = True
+    if field is not None:
+        lvl[field] = value
+    comps = [{"output_column_name": "first_name", "comparison_levels": [
+        {"sql_condition": "first_name_l IS NULL OR first_name_r IS NULL", "label_for_charts": "null", "is_null_level": True},
+        lvl,
+        {"sql_condition": "substr(first_name_l, 1, 1) = substr(first_name_r, 1, 1)", "label_for_charts": "initial",
+         "m_probability": 0.125, "u_probability": 0.25, "fix_u_probability": bool(fixed)},
+        {"sql_condition": "ELSE", "label_for_charts": "else", "m_probability": 0.0625, "u_probability": 0.6875}]},
+        {"output_column_name": "surname", "comparison_levels": [
+            {"sql_condition": "surname_l IS NULL OR surname_r IS NULL", "label_for_charts": "null", "is_null_level": True},
+            {"sql_condition": "surname_l = surname_r", "label_for_charts": "exact", "m_probability": 0.75, "u_probability": 0.125,
+             "fix_m_probability": bool(fixed)},
+            {"sql_condition": "ELSE", "label_for_charts": "else", "m_probability": 0.25, "u_probability": 0.875}]}]
+    tabs = make_tables(random.Random(11), "dedupe_only", n=24)
+    s = {"link_type": "dedupe_only", "comparisons": comps, "blocking_rules_to_generate_predictions": ["l.city = r.city"],
+         "probability_two_random_records_match": 0.05}
+    lk = linker_for(tabs, s, "duckdb")
+    done = []
+    for op, arg in history:
+        done.append((op, arg, apply_training(lk, op, arg)))
+    got = {"history": done, "levels": []}
+    ok = True
+    p1 = predict_rows(lk)
+    d1, d1_text, lk2 = save_and_reload(lk, tabs, "duckdb")
+    for ci, (c1, c2) in enumerate(zip(lk._settings_obj.comparisons, lk2._settings_obj.comparisons)):
+        for li, (l1, l2) in enumerate(zip(c1.comparison_levels, c2.comparison_levels)):
+            if l1.is_null_level:
+                continue
+            js = d1_text["comparisons"][ci]["comparison_levels"][li]
+            for f in ("m_probability", "u_probability"):
+                mem, rel, j = getattr(l1, f), getattr(l2, f), js.get(f, "<absent>")
+                stored = getattr(l1, "_" + f)
+                if stored is None:
+                    continue
+                if not (same_value(mem, rel) and same_value(mem, j)):
+                    ok = False
+                    got["levels"].append({"comparison": c1.output_column_name, "level": l1.label_for_charts, "field": f,
+                                          "fixed": bool(getattr(l1, "_fix_" + f)), "in_memory": mem, "json": j, "reloaded": rel,
+                                          "trained_estimates": [r["probability"] for r in getattr(l1, "_trained_" + f[0] + "_probabilities")]})
+    diffs = diff_predictions(p1, predict_rows(lk2))
+    if diffs:
+        ok = False
+        got["prediction_differences"] = diffs
+    return ok, got, {"settings": s, "history": [list(h) for h in history]}
+
+
 REPORTED: set = set()
 
 
@@ -256,6 +316,30 @@ def run_witnesses(ctx: Ctx):
                  "specification": "the description of the in-memory comparison (the supplied one when given) is in the JSON, "
                                   "in the reloaded model and in the second-generation JSON"},
                 {"field": "comparison_description", "creator": "CustomComparison", "route": kind})
+    for hi, hist in enumerate(TRAINED_HISTORIES):
+        for fixed in (True, False):
+            name = ("fixed:" if fixed else "free:") + ",".join(op for op, _ in hist)
+            try:
+                ok, got, case = trained_witness(None, None, hist, fixed)
+            except Exception as e:
+                ok, got, case = False, {"exception": repr(e)[:300]}, {"history": hist}
+            flags["trained_" + name] = ok
+            ctx.count_case(("trained witness", name), True, None)
+            ctx.hist("witness", "trained_" + name + (":ok" if ok else ":lost"))
+            if not ok:
+                bad = (got.get("levels") or [{}])[0]
+                fld = bad.get("field", "m_probability")
+                key = (fld, "trained")
+                if key in REPORTED:
+                    continue
+                REPORTED.add(key)
+                ctx.violation(
+                    f"after training ({name}) the saved model does not carry the parameters the in-memory model scores with: "
+                    f"{str(got.get('levels', got))[:400]}",
+                    {"case": case, "implementation": got,
+                     "specification": "m/u of every level in the JSON and in the reloaded model equal the in-memory values; "
+                                      "predict() of the reloaded linker equals the in-memory predict()"},
+                    {"field": fld, "trained": True, "fixed": bool(bad.get("fixed", fixed))})
     ctx.cov["boundary_witnesses"] = {k: bool(v) for k, v in flags.items()}
     return flags, results
 
@@ -386,6 +470,31 @@ def report_pipeline_failures(ctx: Ctx, pipelines, okd, cexd):
             if key in reported:
                 continue
             reported.add(key)
+            if bad is False and group == "level":
+                # the directly concretised level round-trips: look for a training history under which a level
+                # carrying this field does not (the failing clause may only matter for trained state)
+                if (k, "trained") in reported or any(f == k and v == "trained" for f, v in REPORTED):
+                    ctx.hist("failed_obligation_replay", f"{p.name}:{k}:explained by the trained-model witness")
+                    continue
+                for hist in TRAINED_HISTORIES:
+                    for fixed in (True, False):
+                        try:
+                            okw, gotw, casew = trained_witness(None, None, hist, fixed)
+                        except Exception:
+                            continue
+                        ctx.hist("failed_obligation_search", f"{k}:{','.join(op for op, _ in hist)}:{'ok' if okw else 'fails'}")
+                        hit = [x for x in gotw.get("levels", []) if x["field"] == k]
+                        if not okw and (hit or "prediction_differences" in gotw):
+                            bad, got, case = True, gotw, casew
+                            value = "<trained>"
+                            key = (k, "trained")
+                            break
+                    if bad:
+                        break
+                if bad and key in reported:
+                    continue
+                if bad:
+                    reported.add(key)
             if bad:
                 feats = {"field": k, "value": value}
                 if group == "comparison":
@@ -441,9 +550,14 @@ def gen_comparison(rng, col, backend_portable, flags, as_dict_route):
         if rng.random() < 0.4:
             exact["fix_m_probability"] = True
             meta["fixed"] = True
-        if rng.random() < 0.3:
-            other["fix_u_probability"] = True
+            if rng.random() < 0.8:
+                exact.setdefault("m_probability", 0.8125)
+        if rng.random() < 0.4:
+            tgt = rng.choice([exact, fuzzy, other])
+            tgt["fix_u_probability"] = True
             meta["fixed"] = True
+            if rng.random() < 0.8:
+                tgt.setdefault("u_probability", 0.1875)
         if kind == "dict_tf":
             exact["tf_adjustment_column"] = col
             w = rng.choice([1.0, 0.5, 0.25] + ([0, 0.0] if flags.get("weight0") and flags.get("weight0f") else []))
@@ -534,6 +648,8 @@ def gen_model(rng, flags, backend, portable):
         history.append(("u", None))
     if rng.random() < 0.35:
         history.append(("lambda", None))
+    if rng.random() < 0.3:
+        history.append(("mlabel", None))
     nem = rng.choice([0, 1, 1, 2])
     em_cols = [c for c in ["city", "first_name", "surname", "age"]]
     for i in range(nem):
@@ -553,6 +669,8 @@ def apply_training(lk, op, arg):
             lk.training.estimate_probability_two_random_records_match([block_on("first_name", "surname")], recall=0.7)
         elif op == "em":
             lk.training.estimate_parameters_using_expectation_maximisation(block_on(arg))
+        elif op == "mlabel":
+            lk.training.estimate_m_from_label_column("cluster")
         su.quiet()
         return True
     except Exception as e:        # training on tiny data can legitimately fail; not a C09 matter
@@ -724,7 +842,7 @@ def correspondence(ctx: Ctx, pipelines, flags):
         seen = set()
         for b in bad[:40]:
             m = term_meta[b]
-            key = (m["kind"], tuple(sorted(k for k in m["json"])))
+            key = m["kind"]
             if key in seen:
                 continue
             seen.add(key)
